@@ -24,6 +24,7 @@ pub mod c16;
 pub mod c17;
 pub mod c18;
 pub mod c19;
+pub mod c20;
 pub mod ackworld;
 
 pub fn run(prop: &str, tier: Tier) -> i32 {
@@ -47,6 +48,7 @@ pub fn run(prop: &str, tier: Tier) -> i32 {
         "C17" => c17::run(tier),
         "C18" => c18::run(tier),
         "C19" => c19::run(tier),
+        "C20" => c20::run(tier),
         _ => {
             eprintln!("no check registered for {}", prop);
             2
@@ -82,6 +84,7 @@ pub fn replay(prop: &str, path: &str) -> i32 {
         "C17" => c17::replay(&j),
         "C18" => c18::replay(&j),
         "C19" => c19::replay(&j),
+        "C20" => c20::replay(&j),
         _ => {
             eprintln!("no replay registered for {}", prop);
             2
